@@ -380,8 +380,20 @@ pub fn label_programs() -> Vec<String> {
 
 /// (e) every string up to `len` symbols over an alphabet of bytes the grammar treats specially,
 /// appended after a valid header; plus all 1-2 symbol strings *instead of* the header.
+pub const SHORT_ALPHABET: [&str; 24] = ["#", "!", ";", ":", ",", "(", ")", "+", ".", "*", "_", " ", "\t", "\r", "\n", "0", "b", "x", "R", "1", "N", "é", "\u{2028}", "\0"];
+
+/// The idx-th string of exactly `len` symbols over SHORT_ALPHABET, behind a valid header.
+pub fn short_string_at(len: usize, mut idx: u64) -> String {
+    let mut s = String::from(HDR);
+    for _ in 0..len {
+        s.push_str(SHORT_ALPHABET[(idx % 24) as usize]);
+        idx /= 24;
+    }
+    s
+}
+
 pub fn short_strings(len: usize) -> Vec<String> {
-    const A: [&str; 24] = ["#", "!", ";", ":", ",", "(", ")", "+", ".", "*", "_", " ", "\t", "\r", "\n", "0", "b", "x", "R", "1", "N", "é", "\u{2028}", "\0"];
+    const A: [&str; 24] = SHORT_ALPHABET;
     let mut out = vec![];
     let mut cur: Vec<String> = vec![String::new()];
     for _ in 0..len {
